@@ -164,8 +164,8 @@ def run(pid, tier, *, groups, judged, ncases, methods=("collect",), seed_salt=0,
         info = infos[r["tid"]]
         if not info.get("cells_ok", True) and "returned" in judged:
             rep.violation({"kind": "returned-cells-differ", "csvpath": info["csvpath"], "file_records": info["records"]})
-    rep.traces = len(recs)
-    rep.evaluations = len(recs)
+    rep.traces += len(recs)
+    rep.evaluations += len(recs)
     seen = set()
     for r in recs:
         info = infos[r["tid"]]
